@@ -90,6 +90,14 @@ func Main(args []string) int {
 		}
 		DebugReach(p, ResolveAnchors(p), args[1])
 		return 0
+	case "dbgrespstores":
+		p, err := Load(LoadConfig{Repo: "/repo"})
+		if err != nil {
+			fmt.Fprintln(os.Stderr, err)
+			return 1
+		}
+		DebugRespStores(p, ResolveAnchors(p))
+		return 0
 	case "dbgstrip":
 		p, err := Load(LoadConfig{Repo: "/repo"})
 		if err != nil {
